@@ -20,3 +20,72 @@ pub fn pick(seed: u64, salt: u64, lo: u64, hi: u64) -> u64 {
     x ^= x >> 31;
     lo + x % (hi - lo)
 }
+
+
+/// Watchdog for stages that have no pass observer (parser, formatter, listing): every worker
+/// publishes what it is working on; a monitor thread reports a case that has been running for
+/// longer than the horizon and ends the process with exit status 3 (the supervisor restarts the
+/// sweep with that input on its skip list).
+pub mod watchdog {
+    use std::sync::Mutex;
+    use std::time::Instant;
+
+    pub struct Slot {
+        pub text: String,
+        pub stage: &'static str,
+        pub since: Instant,
+    }
+
+    static SLOTS: Mutex<Vec<Option<Slot>>> = Mutex::new(Vec::new());
+
+    thread_local! {
+        static MY: std::cell::Cell<usize> = std::cell::Cell::new(usize::MAX);
+    }
+
+    fn my_index() -> usize {
+        MY.with(|m| {
+            if m.get() == usize::MAX {
+                let mut s = SLOTS.lock().unwrap();
+                s.push(None);
+                m.set(s.len() - 1);
+            }
+            m.get()
+        })
+    }
+
+    pub fn enter(text: &str, stage: &'static str) {
+        let i = my_index();
+        SLOTS.lock().unwrap()[i] = Some(Slot {
+            text: text.to_string(),
+            stage,
+            since: Instant::now(),
+        });
+    }
+
+    pub fn stage(stage: &'static str) {
+        let i = my_index();
+        if let Some(s) = SLOTS.lock().unwrap()[i].as_mut() {
+            s.stage = stage;
+            s.since = Instant::now();
+        }
+    }
+
+    pub fn leave() {
+        let i = my_index();
+        SLOTS.lock().unwrap()[i] = None;
+    }
+
+    /// Starts the monitor; `on_hang(text, stage)` is called once, then the process exits with 3.
+    pub fn start(horizon_s: f64, on_hang: Box<dyn Fn(&str, &str) + Send>) {
+        std::thread::spawn(move || loop {
+            std::thread::sleep(std::time::Duration::from_millis(250));
+            let s = SLOTS.lock().unwrap();
+            for slot in s.iter().flatten() {
+                if slot.since.elapsed().as_secs_f64() > horizon_s {
+                    on_hang(&slot.text, slot.stage);
+                    std::process::exit(3);
+                }
+            }
+        });
+    }
+}
